@@ -1215,4 +1215,39 @@ theorem lexAll_spaced (ts : List Token) (h : ∀ t ∈ ts, TokShape t.type t.val
   lexAllAux_spaced ts h _ (Nat.le_refl _)
 
 
+/-! ### non-vacuity: the lemmas above on concrete inputs -/
+
+-- `lexDecode_ok` / `lexDecode_ok_ascii`
+example : lexDecode [0xC3, 0x97, 0x61] = .ok (0xD7, 2) := by rfl
+example : encodeRune 0xD7 = [0xC3, 0x97] := by decide
+-- `skipWsLex_spec`
+example : skipWsLex 3 [0x20, 0x09, 0x61] = [0x61] := by decide
+-- `spanRunes_spec` / `spanRunes_max` / `spanRunes_complete`: `ab1+` has a three-byte identifier prefix
+example : spanRunes (fun r => isAlphaR r || isDigitR r) 4 [0x61, 0x62, 0x31, 0x2B] = 3 := by decide
+-- `scanDelim_sound` / `scanDelim_complete`: the body `a\''` after an opening quote (already counted: 1)
+example : scanDelim 0x27 5 [0x61, 0x5C, 0x27, 0x27] 1 = .ok 5 := by rfl
+example : DelimBody 0x27 [0x61, 0x5C, 0x27, 0x27] :=
+  DelimBody.plain 0x61 _ (by decide) (by decide) (by decide) (DelimBody.esc 0x27 _ (by decide) DelimBody.close)
+-- `lexToken_good`
+example : Good [0x3C, 0x3D, 0x78] ⟨.lessOrEqual, [0x3C, 0x3D]⟩ 2 := lexToken_good (by rfl)
+example : Good [0x5B, 0x2A, 0x61] ⟨.openSqBrace, [0x5B]⟩ 1 := lexToken_good (by rfl)
+-- `lexToken_ws`
+example : lexToken [0x20, 0x61] = .error (.unexpectedRune 0x20) := by rfl
+-- `lexToken_complete` on a delimited token followed by a blank
+example : lexToken ([0x60, 0x31, 0x60] ++ [0x20, 0x61]) = .ok (⟨.jsonLiteral, [0x60, 0x31, 0x60]⟩, 3) :=
+  lexToken_complete (ty := .jsonLiteral)
+    ⟨[0x31, 0x60], rfl, DelimBody.plain 0x31 _ (by decide) (by decide) (by decide) DelimBody.close⟩
+    (Or.inr ⟨[0x61], rfl⟩)
+-- `lexAll_spaced`
+example : lexAll (spaced [[0x61], [0x2E], [0x62]]) =
+    ([⟨.unquotedIdentifier, [0x61]⟩, ⟨.dot, [0x2E]⟩, ⟨.unquotedIdentifier, [0x62]⟩, ⟨.end, []⟩], none) :=
+  lexAll_spaced [⟨.unquotedIdentifier, [0x61]⟩, ⟨.dot, [0x2E]⟩, ⟨.unquotedIdentifier, [0x62]⟩]
+    (by
+      intro t ht
+      simp at ht
+      rcases ht with rfl | rfl | rfl
+      · exact ⟨⟨0x61, [], rfl, by decide, by decide⟩, by decide, by decide⟩
+      · rfl
+      · exact ⟨⟨0x62, [], rfl, by decide, by decide⟩, by decide, by decide⟩)
+
 end Jmes.Lex
